@@ -113,6 +113,8 @@ type FuncEnc struct {
 	CallHook func(e *FuncEnc, in ssa.Instruction, name string, argVals []ssa.Value, args []string)
 	ErrFormats       map[string]string // fmt.Errorf format literal -> literal symbol (ghost errfmt)
 	inlineStack      []*inlineFrame
+	selfClosure      *ssa.MakeClosure          // the closure literal this function is (verified on its own)
+	noPreserve       map[*ssa.Alloc]bool       // private cells a closure callee may write (during its contract call)
 	fvBind           map[*ssa.FreeVar]ssa.Value
 	BodyErrs         []string          // "request body could not be read/decoded" conditions seen so far
 }
@@ -250,7 +252,9 @@ func (e *FuncEnc) havocAll(st *state) {
 // content across a havoc of heap `key`.
 func (e *FuncEnc) preservePrivate(key, old, nu string) {
 	for a, sym := range e.privateSyms {
-		_ = a
+		if e.noPreserve[a] {
+			continue
+		}
 		for _, leaf := range e.privateLeaves[a] {
 			if leaf.key == key {
 				addr := leaf.addr(sym)
@@ -369,6 +373,10 @@ func (e *FuncEnc) v(x ssa.Value) string {
 	// parameters / free variables that were not bound: bind now
 	s := e.newSym(mangle(x.Name()), e.D.SortOf(x.Type()))
 	e.val[x] = s
+	if al, ok := x.(*ssa.Alloc); ok && al.Parent() != e.Fn {
+		// a variable cell of an enclosing function (closure verified on its own)
+		e.assume("true", fmt.Sprintf("(and (> %s 0) (< (atime %s) T0))", s, s))
+	}
 	return s
 }
 
@@ -590,6 +598,23 @@ func (e *FuncEnc) Encode() {
 			e.freeVarCellFacts(i, fv, s, st)
 		}
 	}
+	if fn.Parent() != nil && e.W != nil && e.W.InlineClosures {
+		for _, b := range fn.Parent().Blocks {
+			for _, in := range b.Instrs {
+				if mc, ok := in.(*ssa.MakeClosure); ok && mc.Fn == fn {
+					e.selfClosure = mc
+					for i, fv := range fn.FreeVars {
+						if i < len(mc.Bindings) {
+							e.fvBind[fv] = mc.Bindings[i]
+							if al, ok := mc.Bindings[i].(*ssa.Alloc); ok {
+								e.val[al] = e.val[fv]
+							}
+						}
+					}
+				}
+			}
+		}
+	}
 	e.entry = st.clone()
 	e.cur = st
 	e.curReach = "true"
@@ -781,11 +806,12 @@ func (e *FuncEnc) mergeStates(b *ssa.BasicBlock, preds []*ssa.BasicBlock) *state
 		out.heaps[k] = e.define(k, sort, expr)
 	}
 	// trace
-	tr := e.exit[preds[len(preds)-1]].trace
-	for i := len(preds) - 2; i >= 0; i-- {
-		tr = ite(e.edge[[2]int{preds[i].Index, b.Index}], e.exit[preds[i]].trace, tr)
+	var conds, trs []string
+	for _, p := range preds {
+		conds = append(conds, e.edge[[2]int{p.Index, b.Index}])
+		trs = append(trs, e.exit[p].trace)
 	}
-	out.trace = e.define("tr", "Trace", tr)
+	out.trace = e.mergeTraces(conds, trs)
 	return out
 }
 
